@@ -7,6 +7,7 @@ import os
 
 from .. import absint, bitspec
 from ..engine import Ctx, VERIF
+from . import specconst
 from ..facts import pos_line
 
 TABLE = os.path.join(VERIF, "tables", "bitspec.json")
@@ -206,6 +207,7 @@ def main(pid, tier, repo=None):
     rule_bitspec(ctx)
     rule_hdrpred(ctx)
     rule_bitbuf(ctx)
+    specconst.run(ctx, pid)
     ctx.not_decided("the primitive readers' own arithmetic (U64 continuation, F16 conversion), derived values other than the canvas predicates, "
                     "and that reported accessor values equal the parsed fields")
     return ctx.finish(
